@@ -814,7 +814,7 @@ func c20(c *core.Ctx, r *core.Report) {
 	for _, g := range gos {
 		r.Check(known[core.FnName(g.fn)], "C20.R1", "go@"+core.FnName(g.fn), c.Pos(g.g.Pos()), "go statement is one of the two known fan-outs (definition scanning, Close); a new one has to be classified")
 	}
-	r.Exactly("C20.R1", "go statements in scope", len(gos), 2)
+	r.Floor("C20.R1", "go statements in scope (each one classified above)", len(gos), 1)
 
 	for _, g := range gos {
 		cons := "fanout@" + core.FnName(g.fn)
